@@ -20,12 +20,14 @@ EXPLANATION = ("Theorems over the lexer model for all inputs (tiling, longest ma
                "extracted model against sylt_tokenizer::string_to_tokens.")
 
 ALPHA = ['a', 'e', '_', 'A', '1', '0', '.', '"', "'", '/', '\n', '\r', '\t', ' ', '+', '-', '=', '<', '>', '!', ':',
-         '(', 'ö', '€', '😀', '٣', '#', ',']
+         '(', 'ö', '€', '😀', '٣', '#', ',',
+         # characters that are in NO token of the documented set (must come out as Error tokens, never be skipped)
+         '\\', ';', '$', '@', '&', '%', '^', '~', '`', '\x0c', '\x00', '*']
 SPELL = ["void", "bool", "int", "float", "str", "nil", "true", "false", "if", "elif", "else", "case", "is", "break",
          "continue", "in", "loop", "blob", "externblob", "enum", "ret", "+", "-", "*", "/", "+=", "-=", "*=", "/=",
          "#", ":", "::", ":=", "=", "==", "!=", "<=>", "<!>", "(", ")", "[", "]", "{", "}", "do", "end", ">", ">=",
          "<", "<=", "fn", "pu", "and", "or", "not", "!", "?", "|", "'", ",", ".", "->", "\n", "use", "from", "as",
-         "external", "<<<<<<<", ">>>>>>>", "// c ", "//", " ", "\t", "\r", "  ", "x", "foo_1", "_", "X9", "12",
+         "external", "\\", "\\\n", "\\\r\n", ";", "$", "@", "&", "%", "^", "~", "`", "\x0c", "\x0b", "\x00", "<<<<<<<", ">>>>>>>", "// c ", "//", " ", "\t", "\r", "  ", "x", "foo_1", "_", "X9", "12",
          "007", "1.5", ".5", "3.", "1e5", "2e-3", "7e+2", "1e", "9223372036854775807", "9223372036854775808",
          "\"s\"", "\"a\nb\"", "\"\"", "\"ö\n\n€\"", "\"", "ö", "€", "😀", "٣", "٣.٣", "$", "&", " ", " "]
 
@@ -117,9 +119,9 @@ def tie(ctx):
     samples = [{"source": srcs[i], "tokens": norm_line(real[i])} for i in (len(srcs) - 1, len(srcs) // 2, len(srcs) // 3)]
     return {"name": "lex", "ok": not mism, "mismatches": mism, "evaluations": len(cases),
             "distinct_nontrivial": len(nontrivial),
-            "rule": "exhaustive strings over a 28-symbol alphabet up to length %d, token-spelling soup, random strings "
+            "rule": "exhaustive strings over a %d-symbol alphabet (incl. 12 characters outside every token) up to length %d, token-spelling soup, random strings "
                     "up to 200 chars, multi-line-literal stress; non-trivial = at least two tokens; distinct by source text"
-                    % (3 if ctx.tier == "quick" else 4),
+                    % (len(ALPHA), 3 if ctx.tier == "quick" else 4),
             "samples": samples, "distribution": dist}
 
 
